@@ -95,6 +95,23 @@ CHECKS = {
             "inequalities 1-F<=T<=sqrt(1-F^2), E<=F^2, M<=F; all triples for the triangle inequality; catalogue unitaries x pairs for invariance; rejection of "
             "non-density inputs; fidelity_of_separability = 1 on pure product states (k=1,2) and rejections.",
             "continuous value domain decided on the finite catalogue only (small-scope); tolerance 1e-6 (eigen) / 1e-4 (SDP)"),
+    "C15": ("exploration",
+            "exhaustive enumeration of constructed state families on the real code with return-site tracing",
+            "is_ppt / is_npt on states whose smallest partial-transpose eigenvalue is constructed at -10x / -0.1x / +0.1x / +10x the tolerance for three "
+            "tolerances, both parties, five dimension pairs, list / scalar / omitted dim; is_separable on all mixtures of 1..4 (thorough 6) product states "
+            "from a 7-term product catalogue with weights from the compositions of 4 (must not be declared entangled) and on NPT states with margin "
+            "(must not be declared separable), local dims (2,2),(2,3),(3,2),(3,3),(2,4),(4,2) (+(4,4),(3,4) thorough), every verdict's return site recorded "
+            "by sys.settrace; invariance under local unitaries and party exchange incl. PPT-entangled states (Horodecki, Tiles); in_separable_ball at "
+            "0.5/0.9/1.1/2.0 of the Gurvits-Barnum radius in matrix and eigenvalue forms; has_symmetric_extension on separable states (levels 1,2, ppt on/off).",
+            "soundness only (one-sided, as the property states); continuous value domain decided on the finite families; SDP-priced sizes thinned by a stated stride"),
+    "C16": ("exploration",
+            "exhaustive enumeration of matrices built to have / violate each property by a margin x transforms x tolerance variants, and exact helper identities",
+            "21 clauses: every predicate of matrix_props / state-set predicates on a catalogue of matrices that have the property by construction (U D U^dagger with "
+            "catalogue + seed-derived unitaries and rational spectra, exactly symmetrised; all permutation matrices; circulants; stochastic grids; totally "
+            "positive families; pseudo-unitary signatures; orthonormal column subsets; MUBs; UPBs) and the same objects perturbed by 100x the tolerance, under "
+            "property-preserving transforms and rtol/atol variants; helper identities exact on prime-filled operands (vec/unvec, vec(AXB), tensor forms), Gram round "
+            "trip (real / complex, PD / rank-deficient), commutant dimension and commutation, majorizes on all pairs of partitions of 6, spark vs brute force, norms vs SVD.",
+            "three-valued oracle (inside-margin inputs not judged); spec-ambiguous docstrings not judged; sizes <= 4 (thorough 6)"),
 }
 
 PENDING_REASON = "check not built yet in this session (work in progress; see DESIGN.md section 7 for the planned exploration)"
